@@ -389,6 +389,10 @@ func genEffects(all []*packages.Package, ps []pkgInfo) string {
 							continue
 						}
 						ces, ok := fnEff[callee]
+						if !ok && callee.Origin() != nil {
+							// an instance of a generic function: the effects were computed on the generic body
+							ces, ok = fnEff[callee.Origin()]
+						}
 						if !ok {
 							continue
 						}
